@@ -19,3 +19,7 @@ reg("C13", "exploration",
     "Generated cubics (14 shape families incl. degenerate ones, scales 1-30000, integer/float) x tolerances x all_quadratic, lists of compatible curves with per-curve tolerances, quadratic splines for qu2cu, and glyph/pen level conversions; oracle = exact end points, equal segment counts across masters, and a certified geometric (two-sided Hausdorff) distance bound computed by an own Bezier library: a violation only when the certified lower bound of the distance exceeds the tolerance.",
     "vf/bezier_ref.py (own de Casteljau / branch-and-bound distance) is trusted; ApproxNotFoundError is an allowed outcome; tolerances in [1e-3, R/10].",
     "property-based testing with a certified geometric distance oracle", "DESIGN.md section 2 C13")
+reg("C17", "exploration",
+    "Metamorphic testing: corpus fonts x seeded glyph-order permutations (ttLib.reorderGlyphs) and x new units-per-em values (ttLib.scaleUpem), observed through HarfBuzz before/after keyed by glyph name: outlines, advances, cmap, shaping of texts and lookup-biased glyph runs at default and variation locations; reorder must be exact, scaling must multiply every number by k within a data-derived rounding budget and leave unit-less tables byte-identical.",
+    "HarfBuzz as observer; scale budget formula in evidence assumptions; VARC fonts excluded from the scale relation; offsets compared only when they come from GPOS (HarfBuzz fallback mark positioning is not font data).",
+    "metamorphic relation checked with an independent shaper over corpus x generated permutations/scale factors", "DESIGN.md section 2 C17")
